@@ -194,6 +194,8 @@ def corrupt(plan, texts, cut=None):
 
 
 def gen_case(ch: Chooser, excl=()):
+    with_directive = "bad_directive" not in excl and ch.bool(1, 8)
+    directive_form = ch.int(3)
     pk = ch.choice(["c08", "c01"])
     bk = ch.choice(["c08", "c01"])
     plans = [plan_corruption(ch) for _ in range(ch.weighted([(4, 1), (2, 2), (1, 3)]))]
@@ -222,12 +224,20 @@ def gen_case(ch: Chooser, excl=()):
         if kind == "dup-end-structural":
             must_reject[f"src/{sub}{plan['pos']}_bad{i}.f90"] = "END statement"
         kinds.append(kind)
+    preprocess = False
+    if with_directive:
+        # a file for the preprocessor (upper-case extension) with a directive the preprocessor gives up on
+        fn = f"src/{plans[0]['pos']}_cpp.F90"
+        bad[fn] = ["#define\nmodule cppbad\nend module cppbad\n", "#undef\nmodule cppbad\nend module cppbad\n",
+                   f'#include "{fn.rsplit("/", 1)[-1]}"\nmodule cppbad\nend module cppbad\n'][directive_form]
+        kinds.append("bad-directive")
+        preprocess = True
     names = sorted(P) + sorted(bad)
     order = [n for _, n in sorted(zip(order_key + [0] * len(names), names), key=lambda t: (t[0], t[1]))]
     if bad_first:
         order = sorted(bad) + [n for n in order if n not in bad]
     full_site = plans[0]["b"] % 6 == 0       # a sample of the cases also renders the whole site
-    return {"P": P, "bad": bad, "order": order, "site": full_site, "must_reject": must_reject,
+    return {"P": P, "bad": bad, "order": order, "site": full_site and not preprocess, "must_reject": must_reject, "preprocess": preprocess,
             "classes": ["P:" + pk, "B:" + bk] + ["corrupt:" + k for k in kinds] + (["leak-probe"] if probe else []) +
                        (["full-site"] if full_site else []),
             "nfilesP": len(P), "P_calls": [[r["scope"], r["expect"]] for r in P_refs]}
@@ -265,12 +275,13 @@ def _alarm(signum, frame):
     raise Timeout()
 
 
-def run(files, order):
+def run(files, order, preprocess=False):
     old = signal.signal(signal.SIGALRM, _alarm)
     signal.alarm(WATCHDOG_S)
     try:
         with fordapi.Sandbox(files, prefix="vfw-c20-") as root:
-            project, out = fordapi.parse_project(root, file_order=order)     # default settings otherwise
+            extra = {"preprocess": True, "keep_fpp": True} if preprocess else {}
+            project, out = fordapi.parse_project(root, file_order=order, **extra)     # default settings otherwise
             tree = extract.project_tree(project, root)
             idents = {}
             for coll in ("modules", "submodules", "programs", "procedures", "types", "absinterfaces", "blockdata"):
@@ -340,7 +351,10 @@ def _check(case) -> Result:
     files = dict(P)
     files.update(bad)
     try:
-        t1, id1, reg1, out1 = run(files, case["order"])
+        t1, id1, reg1, out1 = run(files, case["order"], preprocess=bool(case.get("preprocess")))
+    except SystemExit as e:
+        res.fail("run-aborted:SystemExit", f"the run ended with SystemExit({e.code}) with corrupt file(s) {sorted(bad)}")
+        return res
     except Timeout:
         res.fail("hang", f"no result after {WATCHDOG_S} s with corrupt file(s) {sorted(bad)} (order {case['order']})")
         return res
